@@ -21,14 +21,14 @@ def _cargo(args, env, what):
 def build_asan(hooks=True):
     name = 'asan' if hooks else 'asan-nohooks'
     env = dict(ENV, CARGO_TARGET_DIR=os.path.join(TARGET, name), RUSTFLAGS='-Zsanitizer=address -Cforce-frame-pointers=yes')
-    args = ['+nightly', 'build', '--release', '--offline', '--target', TRIPLE]
+    args = ['+nightly', 'build', '--release', '--offline', '--target', TRIPLE, '--features', 'uafbait']
     if not hooks: args += ['--no-default-features']
     return os.path.join(TARGET, name, TRIPLE, 'release', 'dh') if _cargo(args, env, name) else None
 
 
 def build_tsan():
     env = dict(ENV, CARGO_TARGET_DIR=os.path.join(TARGET, 'tsan'), RUSTFLAGS='-Zsanitizer=thread')
-    ok = _cargo(['+nightly', 'build', '--release', '--offline', '-Zbuild-std', '--target', TRIPLE, '--features', 'relaxed'], env, 'tsan')
+    ok = _cargo(['+nightly', 'build', '--release', '--offline', '-Zbuild-std', '--target', TRIPLE, '--features', 'relaxed,uafbait'], env, 'tsan')
     return os.path.join(TARGET, 'tsan', TRIPLE, 'release', 'dh') if ok else None
 
 
@@ -38,7 +38,7 @@ def miri_env(seed, rate, extra=''):
 
 
 def miri_cmd(prop, seed, budget_ms, runs=1000000, only=None):
-    cmd = ['cargo', '+nightly', 'miri', 'run', '--offline', '--features', 'relaxed', '--', '--profile', prop, '--seed', str(seed), '--miri', '--budget-ms', str(budget_ms), '--runs', str(runs)]
+    cmd = ['cargo', '+nightly', 'miri', 'run', '--offline', '--features', 'relaxed,uafbait', '--', '--profile', prop, '--seed', str(seed), '--miri', '--budget-ms', str(budget_ms), '--runs', str(runs)]
     if only is not None: cmd += ['--only-run', str(only)]
     return cmd
 
